@@ -14,6 +14,7 @@
 #include <map>
 #include <set>
 #include <string>
+#include <sys/time.h>
 #include <unistd.h>
 #include <vector>
 
@@ -295,6 +296,33 @@ inline void death_handler(int sig)
     (void)!::write(o.fd, o.ctx, o.ctx_len ? o.ctx_len : strlen(o.ctx));
     signal(sig, SIG_DFL);
     raise(sig);
+}
+
+// CPU-time watchdog per case: a case normally needs milliseconds of CPU; one that burns tens of seconds is an endless loop
+// (e.g. over corrupted bookkeeping). CPU time, not wall-clock time, so that a loaded machine cannot trip it.
+inline void watchdog_handler(int)
+{
+    Out& o = out();
+    static const char head[] = "{\"t\":\"signal\",\"sig\":\"CPU-WATCHDOG\"}\n";
+    (void)!::write(o.fd, head, sizeof head - 1);
+    (void)!::write(o.fd, o.ctx, o.ctx_len ? o.ctx_len : strlen(o.ctx));
+    _exit(97);
+}
+
+inline void arm_case_watchdog(int cpu_seconds)
+{
+    static bool installed = false;
+    if (!installed)
+    {
+        signal(SIGPROF, watchdog_handler);
+        installed = true;
+    }
+    struct itimerval t;
+    t.it_interval.tv_sec = 0;
+    t.it_interval.tv_usec = 0;
+    t.it_value.tv_sec = cpu_seconds;
+    t.it_value.tv_usec = 0;
+    setitimer(ITIMER_PROF, &t, nullptr);
 }
 
 inline void install_death_handlers()
